@@ -467,7 +467,7 @@ class Molecule(nx.Graph):
         subgraph.name = self.name
 
         # copy citations
-        subgraph.citations = self.citations
+        subgraph.citations = self.citations.copy()
         node_copies = [(node, copy.copy(self.nodes[node])) for node in nodes]
         subgraph.add_nodes_from(node_copies)
 
